@@ -154,6 +154,13 @@ def is_number(v):
     return isinstance(v, (int, float)) and not isinstance(v, bool)
 
 
+def _root(x, n):
+    """n-th root of a positive Fraction that may exceed the double range"""
+    from fractions import Fraction
+    x = Fraction(x)
+    return math.exp((math.log(x.numerator) - math.log(x.denominator)) / n)
+
+
 def judge(spec, raw, out):
     """True when the outcome satisfies the reference spec."""
     kind = spec[0]
@@ -167,13 +174,13 @@ def judge(spec, raw, out):
     if not is_number(val):
         return False
     if kind == 'num':
-        return close(val, spec[1])
+        return close(val, spec[1], rel=_REL[0])
     if kind == 'sqrt':
-        return val >= 0 and close(val, math.sqrt(spec[1]))
+        return val >= 0 and close(val, math.sqrt(spec[1]), rel=_REL[0])
     if kind == 'root':
-        return close(val, float(spec[1]) ** (1.0 / spec[2]))
+        return close(val, _root(spec[1], spec[2]), rel=_REL[0])
     if kind == 'oneof':
-        return any(close(val, c) for c in spec[1])
+        return any(close(val, c, rel=_REL[0]) for c in spec[1])
     raise ValueError(kind)
 
 
@@ -184,7 +191,7 @@ def show(spec):
     if kind == 'sqrt':
         return math.sqrt(spec[1])
     if kind == 'root':
-        return float(spec[1]) ** (1.0 / spec[2])
+        return _root(spec[1], spec[2])
     if kind == 'oneof':
         return {'any of': [float(c) for c in spec[1]], 'or': 'an error value'}
     if kind == 'anyerror':
@@ -426,7 +433,8 @@ class Large(AggBase):
 
 W = [-12.75, 7, 0.125, -3, 100, 10.5, 0.1, -0.5, 33, 2]
 P = [1, 2, 2.5, 4, 0.5, 10, 3, 0.125]
-FAMILIES = ('cyc', 'mag', 'pos', 'const', 'alt', 'dup')
+FAMILIES = ('cyc', 'mag', 'pos', 'const', 'alt', 'dup', 'big', 'huge')
+_REL = [1e-9]       # relative tolerance of judge(); 1e-6 for the large-magnitude families (see LongLists)
 
 
 def long_list(fam, n):
@@ -442,6 +450,10 @@ def long_list(fam, n):
         return [(i + 1) * (-1) ** i for i in range(n)]
     if fam == 'dup':
         return [V[(i // 3) % 7] for i in range(n)]
+    if fam == 'big':        # non-integers whose magnitude is ~1e7 times their spread
+        return [1000000 + ((3 * i + 1) % 7) / 10.0 for i in range(n)]
+    if fam == 'huge':
+        return [100000000 + ((5 * i + 2) % 4 + 1) / 10.0 for i in range(n)]
     raise ValueError(fam)
 
 
@@ -460,8 +472,8 @@ def long_shapes(n):
 
 class LongLists(AggBase):
     name = 'c11.long'
-    rule = ('6 deterministic list families (cyclic over the pool, mixed magnitudes, positive, constant, '
-            'alternating integers, runs of duplicates) of length 5..40 x 7 groupings x 15 functions, and LARGE '
+    rule = ('8 deterministic list families (cyclic over the pool, mixed magnitudes, positive, constant, '
+            'alternating integers, runs of duplicates, and two large-magnitude/small-spread decimal families) of length 5..40 x 7 groupings x 15 functions, and LARGE '
             'for every k on 4 array renderings; non-trivial = every case')
     min_cases = 30
     min_nontrivial = 30
@@ -477,8 +489,20 @@ class LongLists(AggBase):
         fam, n = case[1], case[2]
         items = long_list(fam, n)
         env.nt()
+        if fam in ('big', 'huge'):
+            # numerically delicate lists (|mean|/stdev ~ 1e7..1e9): any sound algorithm stays within ~1e-9, a
+            # one-pass sum-of-squares formula loses all digits; judged at rel 1e-6
+            _REL[0] = 1e-6
+            try:
+                return self._block(env, fam, n, items)
+            finally:
+                _REL[0] = 1e-9
+        return self._block(env, fam, n, items)
+
+    def _block(self, env, fam, n, items):
         out = []
-        specs = [(fn, ref_stat(fn, items)) for fn in AGG]
+        # a product beyond the double range is not demanded
+        specs = [(fn, ref_stat(fn, items)) for fn in AGG if not (fn == 'PRODUCT' and fam == 'huge' and n > 35)]
         for shape in long_shapes(n):
             for fn, spec in specs:
                 f = agg_one(env, fn, shape, items, invariance=not shape_is_plain(shape), spec=spec)
